@@ -43,6 +43,7 @@ def joinSteps (l : List String) : String := "|".intercalate l
 def parseArr (t : List String) : Option (ArrOp Nat) :=
   match t with
   | ["push", r, x] => do some (.push (← reg? r) (← nat? x))
+  | ["pushi", r, i] => do some (.pushSelf (← reg? r) (← nat? i))
   | ["appc", r, s] => do some (.appC (← reg? r) (← reg? s))
   | ["appm", r, s] => do some (.appM (← reg? r) (← reg? s))
   | ["asgc", r, s] => do some (.asgC (← reg? r) (← reg? s))
@@ -103,6 +104,8 @@ def parseStr (t : List String) : Option StrOp :=
   | ["appm", r, s] => do some (.appM (← reg? r) (← reg? s))
   | ["appu", _v, r, u] => do some (.appU (← reg? r) (← parseNats u))
   | ["appch", r, c] => do some (.appCh (← reg? r) (← nat? c))
+  | ["appo", v, r, o, n] => do some (.appOwn (← nat? v) (← reg? r) (← nat? o) (← nat? n))
+  | ["asgo", r, o] => do some (.asgOwn (← reg? r) (← nat? o))
   | ["plus", r, s, t] => do some (.plus (← reg? r) (← reg? s) (← reg? t))
   | ["plusm", r, s, t] => do some (.plusM (← reg? r) (← reg? s) (← reg? t))
   | ["plusu", r, s, u] => do some (.plusU (← reg? r) (← reg? s) (← parseNats u))
@@ -148,6 +151,8 @@ def parseSs (t : List String) : Option SsOp :=
   | ["apps", r, s] => do some (.appS (← reg? r) (← reg? s))
   | ["shls", r, s] => do some (.shlS (← reg? r) (← reg? s))
   | ["appu", v, r, u] => do some (.appU (← nat? v) (← reg? r) (← parseNats u))
+  | ["appo", v, r, o, n] => do some (.appOwn (← nat? v) (← reg? r) (← nat? o) (← nat? n))
+  | ["asgo", v, r, o, n] => do some (.asgOwn (← nat? v) (← reg? r) (← nat? o) (← nat? n))
   | ["clear", r] => do some (.clear (← reg? r))
   | ["reset", r] => do some (.reset (← reg? r))
   | ["detach", r] => do some (.detach (← reg? r))
@@ -262,12 +267,12 @@ def parseTreeOp (o : String) : Option TreeOp :=
     match rest.splitOn ":" with
     | [p, i] => do some (.new (← parsePath p) (← i.toNat?))
     | _ => none
-  else if k == "c" || k == "m" then
+  else if k == "c" || k == "m" || k == "a" then
     match rest.splitOn "=" with
     | [d, sr] => do
       let d ← parsePath d
       let sr ← parsePath sr
-      some (if k == "c" then .copy d sr else .move d sr)
+      some (if k == "c" then .copy d sr else if k == "m" then .move d sr else .appendCopy d sr)
     | _ => none
   else if k == "r" then (parsePath rest).map .reset
   else if k == "z" || k == "v" then
@@ -311,7 +316,10 @@ def handle (op : String) (args : List String) : String :=
     else if k == "s" then orBad ((parseOps parseArr ops).map fun o => showTrace (SeqLedger.arrOwnTrace o))
     else "bad-op"
   | "seqled-string", [w, ops] =>
-    orBad (do let w ← width? w; let o ← parseOps parseStr ops; some (showTrace (SeqLedger.strTrace w o)))
+    -- width token `1|2|4`, with suffix `f` when `String::operator=(const Char_T*)` releases before it allocates
+    let ff := w.endsWith "f"
+    let w := if ff then (w.dropEnd 1).toString else w
+    orBad (do let w ← width? w; let o ← parseOps parseStr ops; some (showTrace (SeqLedger.strTrace w ff o)))
   | "seqled-stream", [w, p, ops] =>
     orBad (do
       let w ← width? w
